@@ -311,12 +311,18 @@ inline void auditPartition(const ADD& d, const AuditOpt& o, vf::Case& c, const s
           double minX = d.pProb(s.lb), ec = M0 / (double)k, t = 0;
           std::vector<double> md(k);
           for (size_t j = 0; j < k; ++j) { md[j] = d.qProb(minX + ((double)j + 0.5) * ec); t += md[j]; }
+          // a second site: a class-median probability closer than 2e-6 to 0 or 1 is outside the documented working range of the gamma-type
+          // quantile function (qChisq answers its sentinel -1 there); the sentinel is then taken for a class median
+          bool qrange = false;
+          for (size_t j = 0; j < k; ++j) { double u = minX + ((double)j + 0.5) * ec; double tj = (double)(k + 1) * std::max(s.prec, std::nextafter(std::fabs(md[j]), INF) - std::fabs(md[j]));
+            if ((u > 1 - 2e-6 || u < 2e-6) && !(md[j] >= s.b[j] - tj && md[j] <= s.b[j + 1] + tj)) qrange = true; }
+          if (qrange) why = "median|quantile-function-answers-outside-the-class-for-a-class-median-probability-within-2e-6-of-0-or-1";
           double factor = (d.Expectation(s.ub) - d.Expectation(s.lb)) / t / ec;
           double resc = md[i] * factor;
           bool medianInside = md[i] >= s.b[i] - tv && md[i] <= s.b[i + 1] + tv;
           bool isRescaled = std::fabs(s.v[i] - resc) <= tv + 1e-9 * std::fabs(resc);
           bool movedBack = (resc > s.ub && std::fabs(s.v[i] - s.ub) <= tv) || (resc < s.lb && std::fabs(s.v[i] - s.lb) <= tv);
-          if (factor > 0 && std::isfinite(factor) && medianInside && (isRescaled || movedBack)) why = "median|class-median-inside-but-common-rescaling-factor-moves-it-out";
+          if (!qrange && factor > 0 && std::isfinite(factor) && medianInside && (isRescaled || movedBack)) why = "median|class-median-inside-but-common-rescaling-factor-moves-it-out";
         }
         fail(std::string("values|outside-own-class-interval|") + why + dc, where() + " | class " + str(i) + " value " + num(s.v[i]) + " not in [" + num(s.b[i]) + "," + num(s.b[i + 1]) + "]");
         break;
